@@ -35,10 +35,12 @@ class TocRenderer(HtmlRenderer):
         """
         Returns table of contents as a block_token.List instance.
         """
+        # indent relative to the shallowest collected heading, so that an outline
+        # which does not start at the top level is not taken for an indented code block
+        base_level = min((level for level, _ in self._headings), default=1)
+
         def get_indent(level):
-            if self.omit_title:
-                level -= 1
-            return ' ' * 4 * (level - 1)
+            return ' ' * 4 * (level - base_level)
 
         def build_list_item(heading):
             level, content = heading
